@@ -195,21 +195,26 @@ def partition(repo: Repo) -> RuleRun:
         r.check(c == ops[:n_cores] and s == ops[n_cores:] and g == [c, s], cls, f"{cls.name}: {n_cores} core + {len(ops) - n_cores} shell", f"{cls.name}: core={c}, shell={s}, grid={g}", key=cls.name)
     # one eighth = 1 core loft followed by 3 shell lofts (eighth_sphere_lofts), so n_cores counts eighths
     esl = repo.func("construct.shapes.sphere.eighth_sphere_lofts")
-    appended = [ast.unparse(n.value.args[0]) for n in walk_shallow(esl.node) if isinstance(n, ast.Expr) and isinstance(n.value, ast.Call) and attr_chain(n.value.func) == "lofts.append"]
-    extended = [n for n in walk_shallow(esl.node) if isinstance(n, ast.AugAssign) and ast.unparse(n.target) == "lofts" and isinstance(n.value, ast.List)]
-    r.require(appended == ["core"] and len(extended) == 1 and len(extended[0].value.elts) == 3, "eighth_sphere_lofts: 'lofts.append(core); lofts += [3 shells]' not found")
+    rets = [n for n in walk_shallow(esl.node) if isinstance(n, ast.Return) and isinstance(n.value, ast.Name)]
+    r.require(len(rets) == 1, "eighth_sphere_lofts: 'return <list>' not found")
+    lname = rets[0].value.id
+    appended = [n for n in walk_shallow(esl.node) if isinstance(n, ast.Expr) and isinstance(n.value, ast.Call) and attr_chain(n.value.func) == f"{lname}.append"]
+    extended = [n for n in walk_shallow(esl.node) if isinstance(n, ast.AugAssign) and ast.unparse(n.target) == lname and isinstance(n.value, ast.List)]
+    r.require(len(appended) == 1 and len(extended) == 1 and len(extended[0].value.elts) == 3 and appended[0].lineno < extended[0].lineno, "eighth_sphere_lofts: one core appended first, then three shell lofts - not found")
     e8 = repo.cls("construct.shapes.sphere.EighthSphere")
     hs = repo.cls("construct.shapes.sphere.Hemisphere")
     n8 = ast.literal_eval(repo.class_var(e8, "n_cores")[0])
     nh = ast.literal_eval(repo.class_var(hs, "n_cores")[0])
     r.check(n8 == 1, e8, "EighthSphere: 1 core loft", f"EighthSphere.n_cores = {n8}, but eighth_sphere_lofts returns exactly one core loft first: core/shell would not split the lofts into inner and outer blocks", key="EighthSphere.n_cores")
     loops = [n for n in walk_shallow(repo.func("construct.shapes.sphere.Hemisphere.__init__").node) if isinstance(n, ast.For)]
-    ok_h = len(loops) == 1 and ast.unparse(loops[0].iter) == "range(1, self.n_cores + 1)" and "rotated_core.append(rotated_eighth[0])" in ast.unparse(loops[0]) and "rotated_shell += rotated_eighth[1:]" in ast.unparse(loops[0])
+    lsrc = ast.unparse(loops[0]) if loops else ""
+    ok_h = len(loops) == 1 and ast.unparse(loops[0].iter) == "range(1, self.n_cores + 1)" and ".append(" in lsrc and "[0])" in lsrc and "+=" in lsrc and "[1:]" in lsrc
     r.check(ok_h and nh == 4, hs, "Hemisphere: one core per eighth, 4 eighths", f"Hemisphere (n_cores = {nh}) does not collect element 0 of every eighth as core and the rest as shell", key="Hemisphere.n_cores")
     # Hemisphere builds lofts as cores first, then shells (3 per eighth)
     hinit = repo.func("construct.shapes.sphere.Hemisphere.__init__")
     final = [n for n in walk_shallow(hinit.node) if isinstance(n, ast.Assign) and attr_chain(n.targets[0]) == "self.lofts"]
-    r.check(bool(final) and ast.unparse(final[-1].value) == "rotated_core + rotated_shell", hinit, "lofts = cores + shells", f"Hemisphere.lofts is assembled as {ast.unparse(final[-1].value) if final else '?'}", hinit.node, key="Hemisphere.lofts")
+    fv = final[-1].value if final else None
+    r.check(isinstance(fv, ast.BinOp) and isinstance(fv.op, ast.Add) and "core" in ast.unparse(fv.left) and "shell" in ast.unparse(fv.right), hinit, "lofts = cores + shells", f"Hemisphere.lofts is assembled as {ast.unparse(final[-1].value) if final else '?'}", hinit.node, key="Hemisphere.lofts")
     # disk sketches
     disk = repo.cls("construct.flat.sketches.disk.DiskBase")
     for cls in sketches.sketch_classes_with_quad_map(repo):
@@ -267,4 +272,18 @@ def assemble_walk(repo: Repo) -> RuleRun:
 
 assemble_walk.rule_id = "C19.DELETE-LOCAL"
 
-RULES = [grid_roles, slice_roles, partition, merged_roles, assemble_walk]
+def backport_local(repo: Repo) -> RuleRun:
+    """After a deletion, back-porting still addresses every remaining operation by its own block
+    (abstract run of Mesh.backport, same rule as C12.BACKPORT-MAP)."""
+    from . import c12
+
+    res = c12.backport_map(repo)
+    res.prop, res.rule = PROP, "C19.BACKPORT-LOCAL"
+    for f in res.findings:
+        f.property, f.rule = PROP, "C19.BACKPORT-LOCAL"
+    return res
+
+
+backport_local.rule_id = "C19.BACKPORT-LOCAL"
+
+RULES = [grid_roles, slice_roles, partition, merged_roles, assemble_walk, backport_local]
